@@ -133,8 +133,6 @@ class Engine:
                 if info:
                     base, tr = info
                     self.impl_index.setdefault((base, tr, m.group(3)), name)
-                    if tr and '<' in tr:
-                        self.impl_index.setdefault((base, tr.split('<')[0], m.group(3)), name)
             if b.argtys:
                 cm = re.match(r"(?:&mut |&)?(\{closure@[^}]*\})", b.argtys[0][1])
                 if cm and '{closure#' in name.split('::')[-1]:
@@ -415,6 +413,8 @@ class Engine:
         # fat/opaque values whose fields MIR peeks at
         if isinstance(v, Ref) and i == 0:
             return v      # e.g. (_x.0: NonNull<..>) on a pointer-like wrapper
+        if isinstance(v, (Bytes, Vec)) and i == 0:
+            return v      # Path { inner: OsStr }, PathBuf { inner: OsString }, String { vec } ...
         raise Unsupported('field %d of %r' % (i, v))
 
     def read_place(self, fr, place):
@@ -507,7 +507,7 @@ class Engine:
                 m = re.match(r'^<(.*) as (.*)>::(\w+)::(promoted\[\d+\])$', p0)
                 if m:
                     key = (type_base(m.group(1)), trait_key(m.group(2)), m.group(3))
-                    nm = self.impl_index.get(key) or self.impl_index.get((key[0], key[1].split('<')[0], key[2]))
+                    nm = self.impl_index.get(key)
                     if nm and (nm + '::' + m.group(4)) in self.bodies:
                         res = self.bodies[nm + '::' + m.group(4)]
                 else:
@@ -1026,11 +1026,9 @@ class Engine:
         """find an in-crate body for the callee, if any (static part; generic receivers are resolved at run time)"""
         if ci.kind == 'trait':
             base = type_base(ci.selfty)
-            for tk in (ci.trait, ci.trait.split('<')[0]):
-                nm = self.impl_index.get((base, tk, ci.method))
-                if nm:
-                    ci.target = nm
-                    return
+            nm = self.impl_index.get((base, ci.trait, ci.method))
+            if nm:
+                ci.target = nm
             return
         segs = ci.segs
         if segs[0] in self.EXTERN_ROOTS:
@@ -1126,10 +1124,9 @@ class Engine:
         if ci.kind != 'trait' or not args:
             return NotImplemented
         rt = self.runtime_type(args[0])
-        for tk in (ci.trait, ci.trait.split('<')[0]):
-            nm = self.impl_index.get((rt, tk, ci.method))
-            if nm:
-                return self.run_body(self.body(nm), args)
+        nm = self.impl_index.get((rt, ci.trait, ci.method))
+        if nm:
+            return self.run_body(self.body(nm), args)
         h = self.summaries.get('<%s as %s>::%s' % (rt, ci.trait.split('<')[0], ci.method))
         if h:
             self.used_summaries.add('<%s as %s>::%s' % (rt, ci.trait.split('<')[0], ci.method))
